@@ -1388,6 +1388,8 @@ int main(int argc, char **argv)
   long const RSS_CAP_MB = 3072;
   double t_start = now();
   setenv("OMP_NUM_THREADS", "2", 1);
+  // development switch: atom registration exactly as vproxy / the NAMD interface do it
+  if (getenv("C10_ENGINE_ATOM_PROTOCOL")) g_error_return = false;
 
   load_fixture(repo);
   load_spellings(repo);
